@@ -490,6 +490,9 @@ class Tenant:
         now = zoo.user_array_digests(self.model.user_dicts)
         if now != self.user0:
             return sorted(k for k in self.user0 if now.get(k) != self.user0[k])
+        ch = zoo.early_changed(self.model)
+        if ch:
+            return ["early/" + ch]
         return None
 
 
